@@ -96,6 +96,11 @@ func ksNewEnv(o ksOpts) (*ksEnv, error) {
 	e.cluster = cluster
 	e.h = &handler{}
 	ctx := ctxlog.Context(context.Background(), e.quiet)
+	// GetDeviceID execs findmnt once per volume (10-20 ms each here); the device id plays no role in
+	// the properties checked, so make the lookup fail fast.
+	oldPath := os.Getenv("PATH")
+	os.Setenv("PATH", "/nonexistent")
+	defer os.Setenv("PATH", oldPath)
 	if err := e.h.setup(ctx, cluster, "", prometheus.NewRegistry(), testServiceURL); err != nil {
 		return nil, err
 	}
